@@ -88,9 +88,12 @@ static void run(Rng& r, long n, const std::vector<std::string>& names) {
     std::string selb = masa_verif_selected_handle<S>();
     unsigned szb = masa_verif_registry_size<S>();
     set_ctx("init:" + P, "masa_init<" + P + ">(\"" + h + "\", \"" + s + "\")");
-    Outcome o = guarded([&] { masa_init<S>(h, s); }, !expect_ok);
+    // a third of the double-precision cases go through the C entry points (same registry): the handle is verbatim there as well
+    const bool viaC = sizeof(S) == 8 && r.below(3) == 0;
+    if (viaC) { set_ctx("init:C", "C masa_init(\"" + h + "\", \"" + s + "\")"); LOG.count("cases_through_the_C_entry_points", 1); }
+    Outcome o = guarded([&] { if (viaC) ::masa_init(h.c_str(), s.c_str()); else masa_init<S>(h, s); }, !expect_ok);
     bool adjacent = s.find("--") != std::string::npos || s.find("  ") != std::string::npos || s.find("- ") != std::string::npos || s.find(" -") != std::string::npos;
-    std::string detail = JObj().str("precision", P).str("handle", h).str("input", s).str("normal_form", nf).str("how", how)
+    std::string detail = JObj().str("precision", P).str("handle", h).str("input", s).str("normal_form", nf).str("how", how).str("entry", viaC ? "C" : "C++")
                              .raw("expect_ok", expect_ok ? "true" : "false").raw("fatal", o.fatal ? "true" : "false").num("code", o.code).str("stdout", o.out.substr(0, 300)).done();
     if (o.abnormal) { LOG.viol(PROP, "abnormal-termination", "masa_init ended abnormally: " + o.what, detail); continue; }
     if (expect_ok) {
@@ -132,9 +135,9 @@ static void run(Rng& r, long n, const std::vector<std::string>& names) {
       bool exists = false; { std::map<std::string, std::string> m; long c; parse_list(listing<S>(), m, c); exists = m.count(hn) > 0; }
       if (!exists) {
         set_ctx("select:" + P, "masa_select_mms<" + P + ">(\"" + hn + "\")");
-        Outcome so = guarded([&] { masa_select_mms<S>(hn); }, true);
+        Outcome so = guarded([&] { if (viaC) ::masa_select_mms(hn.c_str()); else masa_select_mms<S>(hn); }, true);
         if (!so.fatal) LOG.viol(PROP, "handle-normalised-on-select", "select of '" + hn + "' succeeded although only '" + h + "' was registered", detail);
-        Outcome so2 = guarded([&] { masa_select_mms<S>(h); }, false);
+        Outcome so2 = guarded([&] { if (viaC) ::masa_select_mms(h.c_str()); else masa_select_mms<S>(h); }, false);
         if (so2.fatal) LOG.viol(PROP, "verbatim-handle-not-selectable", "select of '" + h + "' failed", detail);
         LOG.count("handle_verbatim_checks", 1);
       }
